@@ -1,6 +1,6 @@
 SPECIFICATION Spec
 CONSTANTS
-  VALS = {"v1", "v2", "v3"}
+  VALS = {"v1", "v2", "v3", "v4", "v5"}
   FORD <- c_FORD
   TOKENS = {"t1", "t2"}
   FIX = {"L7", "L8", "L25S", "FROMTO", "WINDOW", "L26", "RPNIL"}
@@ -12,7 +12,7 @@ CONSTANTS
   BADNONCE = FALSE
   MAXH = 5
   MAXTX = 2
-  MAXOPS = 13
+  MAXOPS = 99
   MAXRESTART = 1
   UPDENDS = {3, 4}
   MAXUPD = 1
